@@ -86,7 +86,7 @@ func adversarial(sizes []int) []advCase {
 func runC02(c *core.Ctx) {
 	const thm = "C02_* (props/C02.v); model ops load/val"
 	c.ReplayKnown()
-	nSchemas, per := 25, 20
+	nSchemas, per := 150, 30
 	sizes := []int{4, 8, 12, 16}
 	if !c.Quick {
 		nSchemas, per = 300, 40
